@@ -1,36 +1,71 @@
 import QRV.Model.GF
 import QRV.Spec.GF
+import QRV.Lemmas.Finite
 /-
 Finite facts about the regenerated tables, each established by evaluating the WHOLE table inside
 the kernel (`decide +kernel`): these are proofs over a finite quantifier, not samples.
 -/
 namespace QRV.Lemmas.GF
-open QRV.Model.GF QRV.Spec.GF
+open QRV.Model.GF QRV.Spec.GF QRV.Lemmas
 
 theorem exp_zero : expT 0 = 1 := by decide +kernel
 
-theorem exp_succ : ∀ k < 255, expT (k + 1) = xtime (expT k) := by decide +kernel
+theorem exp_succ : ∀ k < 255, expT (k + 1) = xtime (expT k) := by
+  have h : (List.range 255).all (fun k => expT (k + 1) == xtime (expT k)) = true := by decide +kernel
+  intro k hk; exact eq_of_beq (forall_lt_of_all h k hk)
 
-theorem exp_lt : ∀ k < 256, expT k < 256 := by decide +kernel
+theorem exp_lt : ∀ k < 256, expT k < 256 := by
+  have h : (List.range 256).all (fun k => decide (expT k < 256)) = true := by decide +kernel
+  intro k hk; exact of_decide_eq_true (forall_lt_of_all h k hk)
 
-theorem exp_ne_zero : ∀ k < 256, expT k ≠ 0 := by decide +kernel
+theorem exp_ne_zero : ∀ k < 256, expT k ≠ 0 := by
+  have h : (List.range 256).all (fun k => expT k != 0) = true := by decide +kernel
+  intro k hk; exact ne_of_beq_false (by simpa [bne] using forall_lt_of_all h k hk)
 
 theorem exp_255 : expT 255 = 1 := by decide +kernel
 
-theorem log_lt : ∀ a < 256, logT a < 255 := by decide +kernel
+theorem log_lt : ∀ a < 256, logT a < 255 := by
+  have h : (List.range 256).all (fun a => decide (logT a < 255)) = true := by decide +kernel
+  intro a ha; exact of_decide_eq_true (forall_lt_of_all h a ha)
 
-theorem log_exp : ∀ k < 255, logT (expT k) = k := by decide +kernel
+theorem log_exp : ∀ k < 255, logT (expT k) = k := by
+  have h : (List.range 255).all (fun k => logT (expT k) == k) = true := by decide +kernel
+  intro k hk; exact eq_of_beq (forall_lt_of_all h k hk)
 
-theorem exp_log : ∀ a < 256, a ≠ 0 → expT (logT a) = a := by decide +kernel
+theorem exp_log : ∀ a < 256, a ≠ 0 → expT (logT a) = a := by
+  have h : (List.range 256).all (fun a => a == 0 || expT (logT a) == a) = true := by decide +kernel
+  intro a ha h0
+  have := forall_lt_of_all h a ha
+  simp only [Bool.or_eq_true, beq_iff_eq] at this
+  rcases this with h1 | h1
+  · exact absurd h1 h0
+  · exact h1
 
-theorem mul_eq_smul : ∀ a < 256, ∀ b < 256, mul a b = smul a b := by decide +kernel
+theorem mul_eq_smul : ∀ a < 256, ∀ b < 256, mul a b = smul a b := by
+  have h : (List.range 256).all (fun a => (List.range 256).all (fun b => mul a b == smul a b)) = true := by
+    decide +kernel
+  intro a ha b hb
+  exact eq_of_beq (forall_lt_of_all₂ h a ha b hb)
 
-theorem inv_mul : ∀ a < 256, a ≠ 0 → mul (inv' a) a = 1 := by decide +kernel
+theorem inv_mul : ∀ a < 256, a ≠ 0 → mul (inv' a) a = 1 := by
+  have h : (List.range 256).all (fun a => a == 0 || mul (inv' a) a == 1) = true := by decide +kernel
+  intro a ha h0
+  have := forall_lt_of_all h a ha
+  simp only [Bool.or_eq_true, beq_iff_eq] at this
+  rcases this with h1 | h1
+  · exact absurd h1 h0
+  · exact h1
 
-theorem inv_lt : ∀ a < 256, inv' a < 256 := by decide +kernel
+theorem inv_lt : ∀ a < 256, inv' a < 256 := by
+  have h : (List.range 256).all (fun a => decide (inv' a < 256)) = true := by decide +kernel
+  intro a ha; exact of_decide_eq_true (forall_lt_of_all h a ha)
 
-theorem inv_ne_zero : ∀ a < 256, a ≠ 0 → inv' a ≠ 0 := by decide +kernel
+theorem inv_ne_zero : ∀ a < 256, a ≠ 0 → inv' a ≠ 0 := by
+  have h : (List.range 256).all (fun a => inv' a != 0) = true := by decide +kernel
+  intro a ha _; exact ne_of_beq_false (by simpa [bne] using forall_lt_of_all h a ha)
 
-theorem xtime_lt : ∀ a < 256, xtime a < 256 := by decide +kernel
+theorem xtime_lt : ∀ a < 256, xtime a < 256 := by
+  have h : (List.range 256).all (fun a => decide (xtime a < 256)) = true := by decide +kernel
+  intro a ha; exact of_decide_eq_true (forall_lt_of_all h a ha)
 
 end QRV.Lemmas.GF
